@@ -11,8 +11,10 @@
 From Coq Require Import ZArith QArith List Bool.
 From Knut Require Import Model.Str Model.Dec Model.Date Model.Account Model.Ledger Model.Journal
      Model.Cli Model.Perf Model.Weights Model.CliPortfolio Spec.PortfolioSpec
+     Spec.PortfolioMapSpec
      Proofs.PortfolioDays Proofs.PortfolioReturns Proofs.PortfolioWeights Proofs.PortfolioWitness
-     Proofs.PortfolioProofs.
+     Proofs.PortfolioProofs Proofs.PortfolioTree Proofs.PortfolioMapping Proofs.PortfolioMapWitness
+     Proofs.PortfolioTable Proofs.PortfolioTableLaw.
 Import ListNotations.
 Open Scope Q_scope.
 
@@ -65,9 +67,8 @@ Print Assumptions C20_weight_entries.
    group is its own bookings (collapsed members, if any) plus the weights of its children,
    and it is the sum of everything booked in its subtree.  [nweight] reads a weight map by
    summing the date's entries; on maps with ascending dates that is the cell the renderer
-   looks up (C20_weight_cell).  partial: that Report.Add / PropagateWeights keep the dates
-   ascending is proved for the map operations (wm_add_asc, wm_plus_asc) but not threaded
-   through the tree. *)
+   looks up (C20_weight_cell); Report.Add / PropagateWeights keep the dates ascending on
+   every node of the report (C20_report_dates_ascending). *)
 Theorem C20_group_sum : forall s lf w ch d,
   tdefined (WNode s lf w ch) ->
   nweight (propagate (WNode s lf w ch)) d == wsum w d + qsum (map (fun c => nweight (propagate c) d) ch) /\
@@ -79,6 +80,11 @@ Theorem C20_weight_cell : forall m d, wm_asc m ->
   wsum m d == match wm_get m d with Some w => oq w | None => 0 end.
 Proof. exact wsum_get. Qed.
 Print Assumptions C20_weight_cell.
+
+Theorem C20_report_dates_ascending : forall es p x,
+  wn_find p (propagate (report_of es)) = Some x -> wm_asc (wn_weights x).
+Proof. exact report_cells_asc. Qed.
+Print Assumptions C20_report_dates_ascending.
 
 (* the rows of the top level carry every entry of the date *)
 Theorem C20_top_level_carries_all : forall es d,
@@ -98,6 +104,88 @@ Theorem C20_top_100 : forall u m date v1 day_es before after,
   qsum (map (fun c => nweight c date) (wn_children (propagate (report_of (before ++ day_es ++ after))))) == 1.
 Proof. exact top_100. Qed.
 Print Assumptions C20_top_100.
+
+(* ---------------------------------------------------------------- weights: the mapping law (-m) *)
+
+(* Vocabulary (Spec/PortfolioMapSpec.v): [wn_find p r] the node at path p; [node_weight r p d] the
+   number the renderer reads there for date d (0 where there is no node); [map_entries m es0]
+   the entries es0 with Model/Weights.map_path applied to every path; [pf_unmapped cfg] the
+   same command without -m. *)
+
+(* for every universe, mapping, period ends and list of value records: the query without -m
+   does not panic, and the query with -m books the same entries, in the same order, with the
+   same dates and weights, on the paths map_path gives (or panics where map_path does) *)
+Theorem C20_mapped_entries : forall u m ends l,
+  exists es0, query_entries u [] ends l = WOk es0 /\
+    query_entries u m ends l = (match map_entries m es0 with Some es => WOk es | None => WPanic end).
+Proof.
+  intros u m ends l. destruct (query_entries_unmapped_ok u ends l) as [es0 H]. exists es0.
+  split; [exact H|exact (query_entries_map u m ends l es0 H)].
+Qed.
+Print Assumptions C20_mapped_entries.
+
+(* The mapping law on the nodes: for every configuration (universe, mapping, filters, window)
+   and journal on which `portfolio weights` runs, every path p and date d: the weight the
+   renderer reads at p in the report WITH the mapping is the sum of the weights of the entries
+   of the run WITHOUT the mapping that map_path sends to p or below it, on d.
+   [defined_entries]: no weight is a division by a zero total (Go: Inf/NaN); as in C20_group_sum,
+   sums with undefined weights are not numbers.  (Per date -- only the entries of d defined -- the
+   local form is Proofs/PortfolioPerDate.propagate_at / own_at_find_at, which the table theorem
+   C20_mapping_law_table uses; the sum over the whole subtree is proved under defined_entries.) *)
+Theorem C20_mapping_law : forall cfg ds es0 es p d,
+  weights_entries (pf_unmapped cfg) ds = COk es0 -> weights_entries cfg ds = COk es ->
+  defined_entries es0 ->
+  node_weight (propagate (report_of es)) p d == mapped_weight (pc_mapping cfg) es0 p d.
+Proof. exact mapping_law_nodes. Qed.
+Print Assumptions C20_mapping_law.
+
+(* hence: a node's weight = the entries the mapping folds into the node itself + the weights
+   of its children (a node can be both: booked on, and a group) *)
+Theorem C20_mapping_law_local : forall cfg ds es0 es p d x,
+  weights_entries (pf_unmapped cfg) ds = COk es0 -> weights_entries cfg ds = COk es ->
+  defined_entries es0 ->
+  wn_find p (propagate (report_of es)) = Some x ->
+  node_weight (propagate (report_of es)) p d ==
+  folded_weight (pc_mapping cfg) es0 p d +
+  qsum (map (fun c => node_weight (propagate (report_of es)) (p ++ [wn_seg c]) d) (wn_children x)).
+Proof. exact mapping_law_local. Qed.
+Print Assumptions C20_mapping_law_local.
+
+(* The mapping law on the tables: the executable statement the check evaluates on the binary's two text
+   tables (Spec/PortfolioSpec.mapping_law_b: every leaf row of the table WITHOUT -m has a row of the
+   table WITH -m to be folded into; every row WITH -m = the leaf rows WITHOUT -m that map_path sends
+   to the row's path + the row's member rows, in every column in which these are finite numbers; paths
+   and members read off the indentation) holds, with tolerance 0, of the rows of the two tables of the
+   model ([srows]: depth = indent / 2) -- for every configuration (universe, mapping, filters, window,
+   sort order) and journal, zero totals included (an undefined weight makes the cell of its leaf row
+   undefined, and the statement skips the column), provided
+     [prefix_free es0]  in the run without -m no commodity's path is a proper prefix of another's
+                        (a class is not named like a classified commodity's path): otherwise that
+                        commodity is no leaf row of the table without -m and mapping_law_b is FALSE
+                        of the correct tables, see C20_w4_needs_prefix_free;
+     paths non-empty    the mapping hides no commodity altogether (level 0): otherwise the commodity
+                        has no row to be folded into (leaves_placed_b). *)
+Theorem C20_mapping_law_table : forall cfg ds es0 es t0 t,
+  weights_entries (pf_unmapped cfg) ds = COk es0 -> weights_entries cfg ds = COk es ->
+  prefix_free es0 -> Forall (fun e => entry_path e <> []) es ->
+  weights_table (pf_unmapped cfg) ds = COk t0 -> weights_table cfg ds = COk t ->
+  mapping_law_b 0 (length (fst t)) (pc_mapping cfg) (srows t0) (srows t) = true.
+Proof. exact mapping_law_table. Qed.
+Print Assumptions C20_mapping_law_table.
+
+(* the same for entries: any two sort orders, any mapping under which map_entries succeeds *)
+Theorem C20_mapping_law_rows : forall m es0 es a0 a,
+  map_entries m es0 = Some es ->
+  prefix_free es0 -> Forall (fun e => entry_path e <> []) es ->
+  mapping_law_b 0 (length (report_dates es)) m (srows (render_weights a0 es0)) (srows (render_weights a es)) = true.
+Proof. exact table_law. Qed.
+Print Assumptions C20_mapping_law_rows.
+
+(* where the command with -m runs, the command without -m runs *)
+Theorem C20_unmapped_runs : forall cfg ds es,
+  weights_entries cfg ds = COk es -> exists es0, weights_entries (pf_unmapped cfg) ds = COk es0.
+Proof. exact weights_entries_unmapped_ok. Qed.
+Print Assumptions C20_unmapped_runs.
 
 (* ---------------------------------------------------------------- returns: one per period *)
 
@@ -179,3 +267,52 @@ Example C20_w2_returns :
   second_return (returns_gen (mkFixes true false) w2_cfg w2_journal) = Some (-1 # 2) /\
   second_return (returns_fixed w2_cfg w2_journal) = Some 0.
 Proof. split; [exact w2_pinned_filter|exact w2_repaired]. Qed.
+
+(* W3 (PortfolioMapWitness): universe Equity:US (AAPL), Equity:CH (NESN), Cash (CHF); `-m 1,^Equity:US`
+   folds AAPL into the row Equity, which keeps its member CH.  The node Equity is a leaf and a
+   group at once; the plain group law fails on the table, the mapping law holds; the hypotheses
+   of the mapping theorems hold of this run. *)
+Example C20_w3_partial_fold :
+  weights_entries w3_cfg w3_journal = COk w3_entries /\ weights_entries (pf_unmapped w3_cfg) w3_journal = COk w3_entries0 /\
+  defined_entries w3_entries0 /\
+  match wn_find [s_Equity] (propagate (report_of w3_entries)) with
+  | Some n => wn_leaf n = true /\ map wn_seg (wn_children n) = [s_CH]
+  | None => False
+  end /\
+  node_weight (propagate (report_of w3_entries)) [s_Equity] (jan 31) == 1 # 2 /\
+  folded_weight (pc_mapping w3_cfg) w3_entries0 [s_Equity] (jan 31) == 1 # 4 /\
+  node_weight (propagate (report_of w3_entries)) [s_Equity; s_CH] (jan 31) == 1 # 4 /\
+  groups_ok_b 0 2 (srows w3_table) = false /\
+  mapping_law_b 0 2 (pc_mapping w3_cfg) (srows w3_table0) (srows w3_table) = true.
+Proof.
+  destruct w3_runs as [H1 [H2 _]]. destruct w3_node_law as [H3 [H4 [H5 _]]]. destruct w3_laws as [H6 H7].
+  split; [exact H1|]. split; [exact H2|]. split; [exact w3_defined|]. split; [exact w3_leaf_and_group|].
+  split; [exact H3|]. split; [exact H4|]. split; [exact H5|]. split; [exact H6|exact H7].
+Qed.
+
+(* the hypotheses of C20_mapping_law_table hold of W3, and its conclusion is what vm_compute finds *)
+Example C20_w3_table_law :
+  defined_entries w3_entries0 /\ prefix_free w3_entries0 /\ Forall (fun e => entry_path e <> []) w3_entries /\
+  mapping_law_b 0 (length (fst w3_table)) (pc_mapping w3_cfg) (srows w3_table0) (srows w3_table) = true.
+Proof.
+  destruct w3_runs as [H1 [H2 [H3 H4]]].
+  split; [exact w3_defined|]. split; [exact w3_prefix_free|]. split; [exact w3_nonempty|].
+  exact (C20_mapping_law_table w3_cfg w3_journal w3_entries0 w3_entries w3_table0 w3_table
+           H2 H1 w3_prefix_free w3_nonempty H4 H3).
+Qed.
+
+(* W4: universe Equity (AAPL), Equity:AAPL (NESN), Cash (CHF), `-m 1,^Cash`.  Every hypothesis of the table
+   theorem but prefix_free holds ([Equity; AAPL] is a proper prefix of [Equity; AAPL; NESN]) and
+   mapping_law_b is false of the model's tables: the executable statement presupposes prefix_free. *)
+Example C20_w4_needs_prefix_free :
+  weights_entries (pf_unmapped w4_cfg) w3_journal = COk w4_entries0 /\ weights_entries w4_cfg w3_journal = COk w4_entries /\
+  weights_table (pf_unmapped w4_cfg) w3_journal = COk w4_table0 /\ weights_table w4_cfg w3_journal = COk w4_table /\
+  defined_entries w4_entries0 /\ Forall (fun e => entry_path e <> []) w4_entries /\
+  ~ prefix_free w4_entries0 /\
+  mapping_law_b 0 (length (fst w4_table)) (pc_mapping w4_cfg) (srows w4_table0) (srows w4_table) = false.
+Proof.
+  destruct w4_runs as [H1 [H2 [H3 H4]]]. destruct w4_hyps as [H5 H6]. destruct w4_not_prefix_free as [H7 H8].
+  split; [exact H1|]. split; [exact H2|]. split; [exact H3|]. split; [exact H4|]. split; [exact H5|]. split; [exact H6|].
+  split; [|exact w4_law_fails].
+  intros Hpf. specialize (Hpf _ _ H7 H8). vm_compute in Hpf. discriminate Hpf.
+Qed.
